@@ -9,7 +9,7 @@
      S1 srt      "returns a sorted permutation and leaves a sorted input unchanged" (FmtSort.S1)
      keyed_ok    no sequence is a direct element of a keyed whitelisted list (.spec.template.spec.containers)
      wf_keys     every mapping has pairwise distinct keys *)
-From KV Require Import Yaml.Fmt Yaml.FmtSort Yaml.FmtProofs.
+From KV Require Import Yaml.Fmt Yaml.FmtSort Yaml.FmtTablesRef Yaml.FmtProofs.
 From Coq Require Import Permutation.
 
 (* ---- generated tables ---- *)
@@ -28,6 +28,22 @@ Theorem Gen_type_to_tag_not_null :
   forallb (fun p => negb (String.eqb (snd p) node_tag_null)) type_to_tag = true.
 Proof. exact FmtProofs.Gen_type_to_tag_not_null. Qed.
 Print Assumptions Gen_type_to_tag_not_null.
+
+(* the tables regenerated from /repo are the pinned reference tables (Yaml/FmtTablesRef.v): the set of
+   lists whose order may change is exactly the documented one, and the canonical key order has not
+   drifted.  A deliberate table change must update the reference file. *)
+Theorem Gen_fmt_whitelist_eq_ref :
+  wl_kinds = ref_wl_kinds /\ wl_apis = ref_wl_apis /\ wl_fields = ref_wl_fields.
+Proof. exact FmtProofs.Gen_fmt_whitelist_eq_ref. Qed.
+Print Assumptions Gen_fmt_whitelist_eq_ref.
+
+Theorem Gen_field_order_eq_ref : field_sort_order = ref_field_sort_order.
+Proof. exact FmtProofs.Gen_field_order_eq_ref. Qed.
+Print Assumptions Gen_field_order_eq_ref.
+
+Theorem Gen_type_to_tag_eq_ref : type_to_tag = ref_type_to_tag.
+Proof. exact FmtProofs.Gen_type_to_tag_eq_ref. Qed.
+Print Assumptions Gen_type_to_tag_eq_ref.
 
 (* ---- the comparison of field names ---- *)
 
